@@ -221,28 +221,21 @@ def evaluator_sessions(R, batch, tier, stats):
         genos = [rep.create_genotype(rs) for _ in range(size)]
         evs = []
         stores = []
-        for evname in ("seq", "par"):
-            evaluator = SequentialEvaluator() if evname == "seq" else ParallelEvaluator()
-            inds = [Individual(gt, rep) for gt in genos]
-            ids = Ids()
-            # pre-evaluate some members with a throw-away sequential evaluator
-            pre = [i for i in range(size) if (sidx + i) % 3 == 0 and size > 1]
-            for i in pre:
-                SequentialEvaluator().evaluate(problem, [inds[i]])
-            # present a duplicate object when the population has room for it
-            pop = list(inds)
-            if size >= 3 and sidx % 2 == 0:
-                pop.append(inds[1])
+        # the same fitness FUNCTION OBJECT under the opposite directions: a different problem, evaluated on its own
+        mini2 = [not m for m in mini]
+        problem2 = make_problem(ff, mini2, multi)
+
+        def do_call(evaluator, evname, prob, pmini, pop, ids):
             open(logpath, "w").close()
             before = evaluator.number_of_evaluations()
-            had = [{"id": ids.of(x), "v": prog_value(x.get_phenotype()), "had": x.has_fitness(problem),
-                    "hadcomps": icomps(x.get_fitness(problem).fitness_components) if x.has_fitness(problem) else []}
+            had = [{"id": ids.of(x), "v": prog_value(x.get_phenotype()), "had": x.has_fitness(prob),
+                    "hadcomps": icomps(x.get_fitness(prob).fitness_components) if x.has_fitness(prob) else []}
                    for x in pop]
             exc = ""
             yielded = []
             try:
                 with time_limit(120):
-                    for y in evaluator.evaluate_async(problem, pop):
+                    for y in evaluator.evaluate_async(prob, pop):
                         yielded.append(ids.of(y))
             except Exception as e:
                 exc = exc_name(e)
@@ -250,8 +243,8 @@ def evaluator_sessions(R, batch, tier, stats):
                 calls = [json.loads(l) for l in f if l.strip()]
             after = []
             for x in pop:
-                if x.has_fitness(problem):
-                    fx = x.get_fitness(problem)
+                if x.has_fitness(prob):
+                    fx = x.get_fitness(prob)
                     after.append({"id": ids.of(x), "has": True, "comps": icomps(fx.fitness_components),
                                   "agg": int(fx.maximizing_aggregate)})
                 else:
@@ -259,8 +252,29 @@ def evaluator_sessions(R, batch, tier, stats):
             evs.append({"e": "evalcall", "evaluator": evname, "inds": had, "after": after, "exc": exc,
                         "count_before": before, "count_after": evaluator.number_of_evaluations(),
                         "ffcalls": [{"v": c["v"], "ret": c["ret"]} for c in calls], "yielded": yielded,
-                        "npids": len({c["pid"] for c in calls})})
-            stores.append([a["comps"] for a in after])
+                        "npids": len({c["pid"] for c in calls}), "mini": [bool(m) for m in pmini]})
+            return [a["comps"] for a in after]
+
+        for evname in ("seq", "par"):
+            evaluator = SequentialEvaluator() if evname == "seq" else ParallelEvaluator()
+            inds = [Individual(gt, rep) for gt in genos]
+            ids = Ids()
+            # pre-evaluate some members with a throw-away sequential evaluator (also the only member of a singleton)
+            pre = [i for i in range(size) if (sidx + i) % 3 == 0]
+            for i in pre:
+                SequentialEvaluator().evaluate(problem, [inds[i]])
+            # present a duplicate object when the population has room for it
+            pop = list(inds)
+            if size >= 3 and sidx % 2 == 0:
+                pop.append(inds[1])
+            stores.append(do_call(evaluator, evname, problem, mini, pop, ids))
+            # everything is evaluated now: re-presented alone or together, nobody is evaluated again
+            do_call(evaluator, evname, problem, mini, [inds[sidx % size]], ids)
+            if sidx % 2:
+                do_call(evaluator, evname, problem, mini, list(reversed(pop)), ids)
+            # the twin problem has its own fitness for the same individuals
+            do_call(evaluator, evname, problem2, mini2, list(inds), ids)
+            do_call(evaluator, evname, problem2, mini2, [inds[0]], ids)
         evs.append({"e": "evalpair", "seq": stores[0], "par": stores[1]})
         os.remove(logpath)
         cfg = base_cfg(mini, multi, "direct", evaluator="both")
